@@ -66,7 +66,15 @@ CertWhy(e) ==
   ELSE IF e.s = "UNSATISFIABLE" /\ ~RUP(F0 \cup {Range(e.cert[i]) : i \in 1..Len(e.cert)}, {}) THEN "cli-certificate-no-refutation"
   ELSE ""
 
+(* the OPB reader infers the variables from the terms (the "#variable=" comment is not read): the *)
+(* count is over the variables that occur in the file, the others being free                      *)
+RECURSIVE MaxUsedFrom(_, _)
+MaxUsedFrom(cs, i) == IF i > Len(cs) THEN 0 ELSE Max2(MaxVar(cs[i].lits), MaxUsedFrom(cs, i + 1))
+UsedN == Max2(MaxUsedFrom(Case.cons, 1), IF Case.hasObj THEN MaxVar(Case.obj.lits) ELSE 0)
 CountWhy(e) == IF e.exit # 0 THEN "cli-exit-status"
+               ELSE IF Case.kind = "opb"
+               THEN (IF Extend(Project(mods, UsedN), UsedN, N) # mods THEN "cli-count"
+                     ELSE IF e.count # Cardinality(Project(mods, UsedN)) THEN "cli-count" ELSE "")
                ELSE IF e.count # Cardinality(mods) THEN "cli-count" ELSE ""
 
 Fseq == [i \in 1..Len(Case.cons) |-> Case.cons[i].lits]
